@@ -296,6 +296,12 @@ func (c *Variant) SetAsObject(value any) {
 		v, _ := c.value.(*Variant)
 		c.typ = v.typ
 		c.value = v.value
+		// An array keeps its own list of elements
+		if a1, ok := v.value.([]*Variant); ok {
+			a2 := make([]*Variant, len(a1))
+			copy(a2, a1)
+			c.value = a2
+		}
 	default:
 		c.typ = Object
 	}
